@@ -206,6 +206,34 @@ def argsort(a, stable):
     return out
 
 
+def unique_with_index(a):
+    """np.unique(a, return_index=True) of a 1-D integer array with n elements: K distinct values uniq[0..K) strictly increasing,
+    first[k] = the FIRST position holding uniq[k]; ghost grp: position -> its value's slot."""
+    c = cur()
+    if a.ndim != 1 or a.kind != "int":
+        raise Unsupported("unique of a non-integer or non 1-D array")
+    n = dim_term(a.shape_[0])
+    snap = a.snapshot()
+    K = z3.Int(fresh_name("uq_K"))
+    uniq = z3.Function(fresh_name("uq_val"), z3.IntSort(), z3.IntSort())
+    first = z3.Function(fresh_name("uq_first"), z3.IntSort(), z3.IntSort())
+    grp = z3.Function(fresh_name("uq_grp"), z3.IntSort(), z3.IntSort())
+    c.assume(z3.And(0 <= K, K <= n, z3.Implies(n > 0, K >= 1)))
+    c.assume_forall("unique.slots", lambda k: z3.Implies(z3.And(0 <= k, k < K),
+                    z3.And(0 <= first(k), first(k) < n, snap(first(k)) == uniq(k), grp(first(k)) == k)))
+    c.assume_forall("unique.increasing", lambda k: z3.Implies(z3.And(0 <= k, k + 1 < K), uniq(k) < uniq(k + 1)))
+    c.assume_forall("unique.increasing (pairwise; lemma adjacent-sorted=>sorted)",
+                    lambda k, l: z3.Implies(z3.And(0 <= k, k < l, l < K), uniq(k) < uniq(l)), arity=2)
+    c.assume_forall("unique.every element has its slot, first occurrence first", lambda i: z3.Implies(z3.And(0 <= i, i < n),
+                    z3.And(0 <= grp(i), grp(i) < K, uniq(grp(i)) == snap(i), first(grp(i)) <= i)))
+    c.add_index(K, K - 1)
+    vals = SymArr.fresh((K,), lambda k: uniq(k), "int", a.dtype)
+    idxs = SymArr.fresh((K,), lambda k: first(k), "int", _np.intp)
+    rec = {"K": K, "uniq": uniq, "first": first, "grp": grp, "a": snap, "n": n}
+    c.ghost.setdefault("uniques", []).append(rec)
+    return vals, idxs
+
+
 def bincount(x, weights, minlength):
     c = cur()
     if weights is not None:
